@@ -1,5 +1,242 @@
-import Nstd.Seq.Model
-/- placeholder: replaced by the property theorems -/
+import Nstd.Seq.LemmasStep
+/-
+  Property C03: List, Array and PoolList hold exactly the reference sequence; List::sort leaves an
+  ascending permutation.
+
+  `State`/`step`/`run` (Model.lean) is the model of the three containers (two variables of each kind),
+  `Abs`/`Spec.step`/`Spec.run` (Spec.lean) the reference sequences (plain `List Int` and core list
+  functions), `absS` forgets node ids, free lists, capacities and storage.
+  Only the property theorems live here; helper lemmas are in Lemmas*.lean.
+-/
 namespace Nstd.Seq
-theorem placeholder_sort_two : sortVals (fun a b : Int => decide (a < b)) [2, 1] = some [1, 2] := by decide
+
+/-! ### Refinement: contents and returned iterators / references, for all histories -/
+
+/-- After ANY history of operations (append, prepend, positional insert of a value or a list, removal by
+    iterator / index / value, removeFront/Back, resize, reserve, clear, swap, copy construction, assignment,
+    sort, find, ==, front/back/[]) on the two List, two PoolList and two Array variables, the containers
+    hold exactly the reference sequences; operations whose C++ precondition fails are exactly those the
+    reference rejects. -/
+theorem refines_from (ops : List Op) : ∀ (s : State), Inv s →
+    absS (run s ops) = Spec.run (absS s) ops ∧ trace s ops = Spec.trace (absS s) ops := by
+  induction ops with
+  | nil => intro s _; exact ⟨rfl, rfl⟩
+  | cons op ops ih =>
+    intro s h
+    obtain ⟨e, hi⟩ := step_refines s op h
+    unfold run Spec.run trace Spec.trace
+    cases hq : step s op with
+    | none =>
+      rw [hq] at e
+      simp only [obsS, Option.map_none] at e
+      rw [← e]
+      exact ⟨(ih s h).1, by rw [(ih s h).2]⟩
+    | some r =>
+      rw [hq] at e
+      simp only [obsS, Option.map_some] at e
+      rw [← e]
+      have := ih r.st (hi r hq)
+      exact ⟨this.1, by simp only [this.2]⟩
+
+/-- contents after every history starting from the freshly constructed containers -/
+theorem refines (ops : List Op) : absS (run {} ops) = Spec.run {} ops :=
+  (refines_from ops {} ⟨AState.ok_init, AState.ok_init⟩).1
+
+/-- every value returned along every history (iterator positions, references, front/back/[] values,
+    `==` results; `none` for rejected operations) is the one the reference returns -/
+theorem refines_returns (ops : List Op) : trace {} ops = Spec.trace {} ops :=
+  (refines_from ops {} ⟨AState.ok_init, AState.ok_init⟩).2
+
+/-- what the reference says about a returned insert iterator: it designates the inserted element … -/
+theorem insert_returns_inserted (xs : List Int) (pos : Nat) (x : Int) (ys : List Int) (r : Option Int)
+    (h : Spec.insert xs pos [x] = some (ys, r)) :
+    r = some (pos : Int) ∧ ys[pos]? = some x ∧ ys.length = xs.length + 1 ∧
+      ys.take pos = xs.take pos ∧ ys.drop (pos + 1) = xs.drop pos := by
+  unfold Spec.insert at h
+  by_cases c : pos ≤ xs.length
+  · simp only [c, if_true, Option.some.injEq, Prod.mk.injEq] at h
+    obtain ⟨h1, h2⟩ := h
+    subst h1
+    have hm : min pos xs.length = pos := by omega
+    refine ⟨h2.symm, ?_, ?_, ?_, ?_⟩
+    · simp [List.getElem?_append_right, hm]
+    · simp; omega
+    · simp [List.take_append, hm]
+    · simp [List.drop_append, hm]
+  · simp [c] at h
+
+/-- … and about a returned remove iterator: it designates the successor of the removed element
+    (`end()` = the new length when the last element was removed) -/
+theorem remove_returns_successor (xs : List Int) (pos : Nat) (ys : List Int) (r : Option Int)
+    (h : Spec.remove xs pos = some (ys, r)) :
+    r = some (pos : Int) ∧ ys[pos]? = xs[pos + 1]? ∧ ys.length + 1 = xs.length ∧
+      ys.take pos = xs.take pos := by
+  unfold Spec.remove at h
+  by_cases c : pos < xs.length
+  · simp only [c, if_true, Option.some.injEq, Prod.mk.injEq] at h
+    obtain ⟨h1, h2⟩ := h
+    subst h1
+    refine ⟨h2.symm, ?_, ?_, ?_⟩
+    · simp [List.getElem?_eraseIdx]
+    · rw [List.length_eraseIdx]; simp [c]; omega
+    · have hm : min pos xs.length = pos := by omega
+      rw [List.eraseIdx_eq_take_drop_succ, List.take_append]; simp [hm, List.take_take]
+  · simp [c] at h
+
+/-! ### List::sort: the modelled in-place quicksort, for EVERY input list -/
+
+/-- The quicksort of List.hpp (pivot = first value, three-pointer walk, value swaps, recursion on both
+    parts) terminates within its recursion fuel on every input, and its result is a permutation of the
+    input in non-descending order — for every element type whose `<` is asymmetric and transitive
+    (a strict partial order suffices; for incomparable elements "ascending" means "no later element is
+    smaller than an earlier one"). -/
+theorem sort_total {α : Type} [Inhabited α] (lt : α → α → Bool)
+    (hasymm : ∀ x y, lt x y = true → lt y x = false)
+    (htrans : ∀ x y z, lt x y = true → lt y z = true → lt x z = true) (vs : List α) :
+    ∃ r, sortVals lt vs = some r :=
+  let ⟨r, e, _⟩ := sortVals_spec lt hasymm htrans vs; ⟨r, e⟩
+
+theorem sort_perm {α : Type} [Inhabited α] (lt : α → α → Bool)
+    (hasymm : ∀ x y, lt x y = true → lt y x = false)
+    (htrans : ∀ x y z, lt x y = true → lt y z = true → lt x z = true) (vs r : List α)
+    (h : sortVals lt vs = some r) : r.Perm vs := by
+  obtain ⟨r', e, p, _⟩ := sortVals_spec lt hasymm htrans vs
+  rw [h] at e; cases e; exact p
+
+theorem sort_sorted {α : Type} [Inhabited α] (lt : α → α → Bool)
+    (hasymm : ∀ x y, lt x y = true → lt y x = false)
+    (htrans : ∀ x y z, lt x y = true → lt y z = true → lt x z = true) (vs r : List α)
+    (h : sortVals lt vs = some r) : r.Pairwise (fun a b => lt b a = false) := by
+  obtain ⟨r', e, _, s⟩ := sortVals_spec lt hasymm htrans vs
+  rw [h] at e; cases e; exact s
+
+/-- the partition and the recursion only ever touch the nodes `left … right` (frame), hence stay inside
+    the list: everything outside the segment is unchanged and the length is preserved -/
+theorem sort_frame {α : Type} [Inhabited α] (lt : α → α → Bool)
+    (hasymm : ∀ x y, lt x y = true → lt y x = false)
+    (htrans : ∀ x y z, lt x y = true → lt y z = true → lt x z = true)
+    (f : Nat) (m m' : List α) (left right : Nat) (h1 : left < right) (h2 : right < m.length)
+    (h3 : right - left < f) (h : qsortF lt f m left right = some m') :
+    m'.length = m.length ∧ ∀ k, k < left ∨ right < k → rd m' k = rd m k := by
+  obtain ⟨m2, e, w, _⟩ := qsortF_spec lt hasymm htrans f m left right h1 h2 h3
+  rw [h] at e; cases e
+  exact ⟨w.1, fun k hk => w.2.1 k (by omega)⟩
+
+/-- `List<int>::sort()` of the model: the list afterwards holds the ascending permutation of its values,
+    in the same nodes (ids and free list untouched) -/
+theorem lsort_int (s : LState) :
+    ∃ r, s.sort = some r ∧ r.st.vals = s.vals.mergeSort (fun a b => decide (a ≤ b)) ∧
+      r.st.ids = s.ids ∧ r.st.free = s.free ∧ r.st.nblocks = s.nblocks ∧
+      r.st.vals.Perm s.vals ∧ r.st.vals.Pairwise (· ≤ ·) := by
+  have h := LState.sort_refines s
+  unfold LState.sort at h ⊢
+  rw [sortVals_int] at h ⊢
+  simp only [obsL, Option.map_some, Spec.sort, Option.some.injEq, Prod.mk.injEq, and_true] at h
+  refine ⟨_, rfl, h, ?_, rfl, rfl, ?_, ?_⟩
+  · have : ∀ (ns : List (Nat × Int)) (vs : List Int), (LState.setVals ns vs).map (·.1) = ns.map (·.1) := by
+      intro ns
+      induction ns with
+      | nil => intro vs; cases vs <;> simp [LState.setVals]
+      | cons n ns ih =>
+        intro vs
+        obtain ⟨id, x⟩ := n
+        cases vs with
+        | nil => simp [LState.setVals]
+        | cons v vs => simp [LState.setVals, ih]
+    exact this _ _
+  · rw [h]; exact List.mergeSort_perm _ _
+  · rw [h]
+    have := List.pairwise_mergeSort (le := fun a b : Int => decide (a ≤ b))
+      (by intro a b c h1 h2; simp only [decide_eq_true_eq] at *; omega)
+      (by intro a b; simp only [Bool.or_eq_true, decide_eq_true_eq]; omega) s.vals
+    exact this.imp (by intro a b h; simpa using h)
+
+/-! ### Array capacity -/
+
+/-- In every reachable state both arrays satisfy `size ≤ capacity` whenever they own storage, and an
+    array without storage is empty; in particular no operation of any history writes outside its
+    allocation (the model's checked `push` never faults, cf. `refines`: the model rejects exactly what the
+    reference rejects). -/
+theorem array_cap (ops : List Op) :
+    let s := run {} ops
+    (s.a0.data.isSome → s.a0.size ≤ s.a0.cap) ∧ (s.a1.data.isSome → s.a1.size ≤ s.a1.cap) ∧
+    (s.a0.data = none → s.a0.size = 0) ∧ (s.a1.data = none → s.a1.size = 0) := by
+  have key : ∀ (ops : List Op) (s : State), Inv s → Inv (run s ops) := by
+    intro ops
+    induction ops with
+    | nil => intro s h; exact h
+    | cons op ops ih =>
+      intro s h
+      unfold run
+      cases hq : step s op with
+      | none => exact ih s h
+      | some r => exact ih r.st ((step_refines s op h).2 r hq)
+  have inv := key ops {} ⟨AState.ok_init, AState.ok_init⟩
+  exact ⟨AState.size_le_cap _ inv.1, AState.size_le_cap _ inv.2,
+    fun h => by simp [AState.size, AState.elems_none _ h], fun h => by simp [AState.size, AState.elems_none _ h]⟩
+
+/-- growth policy of `reserve(n)` as coded: storage is (re)allocated iff `n > capacity` or there is no storage
+    yet and `n > 0`; the new capacity is `max n capacity` rounded up to `4k+3` (`| 0x03`); otherwise nothing
+    changes.  The elements are kept and `n ≤ capacity` afterwards. -/
+theorem reserve_policy (s : AState) (n : Nat) :
+    (s.reserve n) =
+      (if n > s.cap ∨ (s.data = none ∧ n > 0) then
+        ({ cap := (max n s.cap) / 4 * 4 + 3, data := some s.elems }, 1, if s.data.isSome then 1 else 0)
+      else (s, 0, 0)) := by
+  have or3 : ∀ k : Nat, k ||| 3 = k / 4 * 4 + 3 := by
+    intro k
+    have h1 : (k ||| 3) / 4 = k / 4 := by
+      have := @Nat.or_div_two_pow k 3 2
+      simpa using this
+    have h2 : (k ||| 3) % 4 = 3 := by
+      have := @Nat.or_mod_two_pow k 3 2
+      have hk : k % 4 < 4 := Nat.mod_lt _ (by omega)
+      simp only [Nat.reducePow, Nat.reduceMod] at this
+      rw [this]
+      have : ∀ j, j < 4 → j ||| 3 = 3 := by decide
+      exact this _ hk
+    omega
+  obtain ⟨cap, data⟩ := s
+  unfold AState.reserve
+  cases data with
+  | none =>
+    by_cases c : n > cap ∨ n > 0
+    · have c' : n > cap ∨ (True ∧ n > 0) := by simpa using c
+      by_cases c2 : n > cap
+      · simp [c, c2, or3, AState.elems, Nat.max_eq_left (Nat.le_of_lt c2)]
+      · simp [c, c2, or3, AState.elems, Nat.max_eq_right (Nat.le_of_not_lt c2)]
+    · simp [c]
+  | some es =>
+    by_cases c : n > cap
+    · simp [c, or3, AState.elems, Nat.max_eq_left (Nat.le_of_lt c)]
+    · simp [c]
+
+/-- `append` does not reallocate while the capacity suffices (iterators/references stay valid) -/
+theorem append_no_realloc (s : AState) (x : Int) (es : List Int) (hd : s.data = some es) (hc : es.length < s.cap) :
+    ∃ r, s.append x = some r ∧ r.allocs = 0 ∧ r.frees = 0 ∧ r.st.cap = s.cap ∧ r.st.data = some (es ++ [x]) := by
+  obtain ⟨cap, data⟩ := s
+  simp only at hd hc
+  subst hd
+  have : ¬ (es.length + 1 > cap) := by omega
+  simp [AState.append, AState.reserve, AState.size, AState.elems, this, AState.push, hc]
+
+/-! ### Non-vacuity -/
+
+/-- the hypotheses of the sort theorems are met by `int` with `<` -/
+example : (∀ x y, ltInt x y = true → ltInt y x = false) ∧
+    (∀ x y z, ltInt x y = true → ltInt y z = true → ltInt x z = true) :=
+  ⟨by intro x y h; simp only [ltInt, decide_eq_true_eq, decide_eq_false_iff_not] at *; omega,
+   by intro x y z h1 h2; simp only [ltInt, decide_eq_true_eq] at *; omega⟩
+
+example : sortVals ltInt [3, 1, 2, 3, 0, -5, 1] = some [-5, 0, 1, 1, 2, 3, 3] := by decide
+
+/-- a history that exercises insertion in the middle, list insertion, removal, sort, copy and growth -/
+def demoOps : List Op :=
+  [.lappend 0 3, .lappend 0 1, .linsert 0 1 7, .lappend 1 9, .linsertl 0 1, .lremove 0 0,
+   .lsort 0, .lcopy 1, .aappend 0 1, .aappend 0 2, .aappend 0 3, .aappend 0 4, .aremove 0 1,
+   .pappend 0 5, .pappend 0 6, .premoveFront 0]
+
+example : absS (run {} demoOps) = { l0 := [1, 7, 9], l1 := [1, 7, 9], p0 := [6], a0 := [1, 3, 4] } ∧
+    (run {} demoOps).a0.cap = 7 := by decide
+
 end Nstd.Seq
